@@ -234,9 +234,19 @@ def judge(p, ctx, fsys, fm, A, b_top, frame, consistent):
     active = bool(x_ls.min() < -1e-9)
     if method == "lsq":
         gap = f_rep - f_ref
-        if gap > 2e-2 * f_ref + 1e-8 * bb:
+        raw = rec["xres"]
+        stuck = bool(np.any((raw <= 1e-8) & (x_ref > 1e-6)))
+        start_positive = p.get("x0", "none") in ("none", "ones", "random")
+        if path == "lsq" and stuck and start_positive:
+            # known finding D27: lmfit's bound transform has zero derivative on the bound, a parameter that reaches
+            # 0 during the iteration never leaves it (started from a strictly positive vector)
+            ctx.known("D27")
+            ctx.exclude_known("D27")
+            ctx.count("lsq-stuck-on-bound(D27)")
+            return "known"
+        if gap > 1e-3 * f_ref + 1e-8 * bb:
             return ctx.violation("lsq-not-optimal", p, observed=f_rep, expected=f_ref,
-                                 detail={"gap": gap, "path": path, "min_T": float(vals.min())})
+                                 detail={"gap": gap, "path": path, "min_T": float(vals.min()), "stuck_on_bound": stuck})
     else:
         ok, info = kkt_report(M, b, x_rep)
         if not ok:
@@ -352,3 +362,28 @@ def demo_D5():
 
 def demonstrators():
     return {"D5": demo_D5}
+
+
+def demo_D27():
+    """Replay of the first instance found by the thorough tier (C16 generator): angle-limited velocity system."""
+    import json as _json
+    import os as _os
+    from ..core import VERIF, Ctx
+    fn = _os.path.join(VERIF, "regress", "known", "d27_lsq_stuck_on_bound.json")
+    with open(fn) as f:
+        rec = _json.load(f)
+    from . import c16
+    ctx = Ctx("C16", "quick", 0)
+    ctx.replaying = True
+    c16.check_case(rec["params"], ctx)
+    hit = ctx.known_hits.get("D27", 0) > 0
+    return hit, "angle-limited velocity system: lmfit ends with a tension on the bound, objective above the optimum"
+
+
+_old_demonstrators = demonstrators
+
+
+def demonstrators():
+    d = _old_demonstrators()
+    d["D27"] = demo_D27
+    return d
